@@ -10,8 +10,9 @@ KEY_VARIANTS = "abcdef"
 EXTRA_UNITS = [49, 48, 50, 34, 92, 47, 9, 10, 120, 121, 122, 32, 126, 1, 127, 58, 43, 45]
 
 REALS = ["0000000000000000", "3ff8000000000000", "c006000000000000", "4008000000000000", "3fb999999999999a",
-         "4202a05f20000000", "419d6f3454800000", "bfe0000000000000"]
-FLOAT_REALS = ["0000000000000000", "3ff8000000000000", "c006000000000000", "4008000000000000", "bfe0000000000000"]
+         "4202a05f20000000", "419d6f3454800000", "bfe0000000000000", "8000000000000000", "4014000000000000"]
+FLOAT_REALS = ["0000000000000000", "3ff8000000000000", "c006000000000000", "4008000000000000", "bfe0000000000000", "8000000000000000",
+               "4014000000000000"]
 NATS = [0, 1, 7, 42, 2 ** 32, 2 ** 53 + 1, 2 ** 53 + 3, 2 ** 63, 2 ** 64 - 1, 2 ** 64 - 1025, 999999999999999999]
 UINTS = [0, 5, 4294967295]
 INTS = [0, -1, -5, 123, 2 ** 63 - 1, -2 ** 63, -(2 ** 53) - 1]
